@@ -282,6 +282,9 @@ func (hs *serverHandshakeState) processClientHello() error {
 		hs.hello.scts = hs.cert.SignedCertificateTimestamps
 	}
 
+	if h := verifServerHook(c); h != nil && h.ForceCurveTLS12 != 0 {
+		hs.clientHello.supportedCurves = []CurveID{h.ForceCurveTLS12}
+	}
 	hs.ecdheOk = supportsECDHE(c.config, c.vers, hs.clientHello.supportedCurves, hs.clientHello.supportedPoints)
 
 	if hs.ecdheOk && len(hs.clientHello.supportedPoints) > 0 {
